@@ -36,7 +36,7 @@ tvars == <<vars, tid, l, fails, drift, results>>
 
 T == Batch[tid]
 NetOf(t) == [ half |-> t.half, kind |-> t.kind, area |-> t.area, rad |-> t.rad, rects |-> t.rects, p0 |-> t.p0,
-              edges |-> t.edges, trials |-> t.trials ]
+              edges |-> t.edges, trials |-> t.trials, round |-> 1 ]
 
 TraceInit == /\ tid \in 1..Len(Batch) /\ l = 1 /\ fails = {} /\ drift = {} /\ results = <<>>
              /\ net = NetOf(Batch[tid])
